@@ -34,6 +34,7 @@ FAMILIES = {
             'queries', 'treasury', 'treasury_ownership', 'ibc', 'funds', 'instantiate', 'migrate'],
 }
 CASES = 3000
+MINIWASM_TOO = {'C19'}
 
 
 def _crate_dir():
@@ -41,25 +42,25 @@ def _crate_dir():
     return os.path.join(work, 'replay-crate')
 
 
-def build(repo=None):
+def build(repo=None, features=()):
     """(re)generates the driver crate against the current tree and builds it offline"""
     repo = repo or REPO
-    d = _crate_dir()
+    d = _crate_dir() + ('-' + '-'.join(features) if features else '')
     os.makedirs(os.path.join(d, 'src'), exist_ok=True)
     tpl = open(os.path.join(VERIF, 'replay', 'Cargo.toml.in')).read().replace('@REPO@', repo)
     open(os.path.join(d, 'Cargo.toml'), 'w').write(tpl)
     shutil.copy(os.path.join(VERIF, 'replay', 'src', 'main.rs'), os.path.join(d, 'src', 'main.rs'))
     shutil.copy(os.path.join(repo, 'Cargo.lock'), os.path.join(d, 'Cargo.lock'))
     env = dict(os.environ, CARGO_NET_OFFLINE='true',
-               CARGO_TARGET_DIR=os.environ.get('VERIF_REPLAY_TARGET', os.path.join(VERIF, 'target', 'replay')))
+               CARGO_TARGET_DIR=os.environ.get('VERIF_REPLAY_TARGET', os.path.join(VERIF, 'target', 'replay')) + ('-' + '-'.join(features) if features else ''))
     # artifacts of path dependencies built from another tree must never be reused
     stamp = os.path.join(env['CARGO_TARGET_DIR'], '.built-against')
     if os.path.exists(stamp) and open(stamp).read() != repo:
         subprocess.run(['cargo', 'clean', '--offline', '--release', '-p', 'staking', '-p', 'treasury', '-p', 'milky_way',
-                        '-p', 'vreplay'], cwd=d, env=env, capture_output=True, text=True)
+                        '-p', 'initia-proto', '-p', 'vreplay'], cwd=d, env=env, capture_output=True, text=True)
     os.makedirs(env['CARGO_TARGET_DIR'], exist_ok=True)
     open(stamp, 'w').write(repo)
-    p = subprocess.run(['cargo', 'build', '--release', '--offline', '--quiet'], cwd=d, env=env,
+    p = subprocess.run(['cargo', 'build', '--release', '--offline', '--quiet'] + (['--features', ','.join(features)] if features else []), cwd=d, env=env,
                        capture_output=True, text=True, timeout=1200)
     if p.returncode != 0:
         raise RuntimeError('replay driver does not build against this tree: ' + p.stderr[-1500:])
@@ -75,9 +76,17 @@ def search(pid, v, seed, cases=None):
                        capture_output=True, text=True, timeout=1800)
     line = (p.stdout.strip().split('\n') or ['null'])[-1]
     w = json.loads(line)
+    if w is None and pid in MINIWASM_TOO:
+        # the other build variant of the staking contract (cargo feature `miniwasm`)
+        exe = build(features=('miniwasm',))
+        p = subprocess.run([exe, 'search', ','.join(f for f in fams if f in ('instantiate', 'stake', 'batch', 'rewards')), str(seed or 1), str(cases or CASES), pid],
+                           capture_output=True, text=True, timeout=1800)
+        w = json.loads((p.stdout.strip().split('\n') or ['null'])[-1])
+        if w is not None:
+            w['build'] = 'miniwasm'
     if w is None:
         return None
-    w['cmd'] = f'vreplay rerun {w["family"]} {w["seed"]} {w["case"]}'
+    w['cmd'] = f'vreplay rerun {w["family"]} {w["seed"]} {w["case"]}' + (' (driver built with --features miniwasm)' if w.get('build') else '')
     w['how'] = ('real handlers of the staking/treasury crates on mock storage, compared with the executable '
                 'transliteration of the contract clauses in /verif/replay/src/main.rs')
     return w
@@ -85,7 +94,7 @@ def search(pid, v, seed, cases=None):
 
 def rerun(rec):
     w = rec['witness']
-    exe = build()
+    exe = build(features=('miniwasm',) if w.get('build') == 'miniwasm' else ())
     p = subprocess.run([exe, 'rerun', w['family'], str(w['seed']), str(w['case'])], capture_output=True, text=True)
     print(p.stdout.strip())
     return 1 if p.returncode == 1 else 0
